@@ -32,6 +32,7 @@ func propC04(r *Report, tier string) {
 	rulePersistIntroducerCarry(r, in, "K9b-persist-carry")
 	ruleTreapItemsImmutable(r, "K6-treap-items-immutable")
 	ruleOneKVBatchPerIndexBatch(r, "K12-one-kv-batch-per-index-batch")
+	ruleSegmentRefIffCarried(r, "K1-segment-ref-iff-carried", in)
 	r.Floor("K7-root-publishers", 5)
 	r.Floor("K5-single-publication", 9)
 	r.Floor("K6-published-immutable", 20)
